@@ -15,6 +15,7 @@ RUN = {
     "log": [],         # (what, tag, ...) entries
     "fail": {},        # tag -> exception kind
     "on_call": None,   # optional hook(tag, phase) -> used as yield point by E2
+    "router": None,    # optional () -> (log, fail) of the scheduler call the current thread serves
 }
 
 
@@ -23,6 +24,7 @@ def reset():
     RUN["log"] = []
     RUN["fail"] = {}
     RUN["on_call"] = None
+    RUN["router"] = None
 
 
 def norm(x):
@@ -120,20 +122,23 @@ def call(tag, *args, **kwargs):
     """The task body of node `tag`."""
     run = RUN
     if run["active"]:
-        run["log"].append(("start", tag[:2], norm(list(args)), norm(dict(kwargs))))
+        router = run.get("router")
+        # E2: several concurrent scheduler calls -> one log (and fault plan) per owner
+        log, fail = (run["log"], run["fail"]) if router is None else router()
+        log.append(("start", tag[:2], norm(list(args)), norm(dict(kwargs))))
         hook = run["on_call"]
         if hook is not None:
             hook(tag, "start")
-        kind = run["fail"].get(tag[:2])
+        kind = fail.get(tag[:2])
         if kind is not None:
-            run["log"].append(("raise", tag[:2], kind))
+            log.append(("raise", tag[:2], kind))
             raise make_exc(kind, f"boom-{tag[0]}-{tag[1]}")
     val = compute_value(tag, args, kwargs)
     if run["active"]:
         hook = run["on_call"]
         if hook is not None:
             hook(tag, "end")
-        run["log"].append(("end", tag[:2]))
+        log.append(("end", tag[:2]))
     return val
 
 
